@@ -702,7 +702,7 @@ def gen_grow_history(rnd, bit0, levels):
     return ops, hot
 
 
-def gen_sync_history(rnd, reset, big=False):
+def gen_sync_history(rnd, reset, big=False, bad=False):
     """tables pre-filled with records of this socket (source 1) and of others, then one synchronisation whose stream is
     consistent with them: announcements of absent records, withdrawals of present ones (delta), or a full reload"""
     fam = rnd.choice("46")
@@ -761,6 +761,15 @@ def gen_sync_history(rnd, reset, big=False):
     seen = set()
     ups = [u for u in ups if not (u in seen or seen.add(u))]
     rnd.shuffle(ups)
+    if bad and ups:
+        # a response that cannot be applied: one update is repeated at the end (second announcement = duplicate, second
+        # withdrawal = unknown record), so everything applied before it is rolled back - under every allocation failure
+        fam_rank = {"4": 0, "6": 1}
+        def rank(u):
+            return 2 if u[0] == "k" else fam_rank[u[2][0]]
+        u = rnd.choice(ups)
+        # the client applies IPv4, then IPv6, then keys: the repeat fails in its own phase, after the earlier phases
+        ups.append(u)
     ops.append(sync_line(reset, ups))
     if rnd.random() < 0.5:
         ops.append("psrcdel 0 1")
@@ -1033,6 +1042,9 @@ def run(chk):
     for j in range({"quick": 10, "thorough": 120}[chk.tier]):
         hists.append(("sync-delta-%d" % j, gen_sync_history(rnd, False), None, 40))
         hists.append(("sync-reset-%d" % j, gen_sync_history(rnd, True), None, 40))
+    for j in range({"quick": 8, "thorough": 80}[chk.tier]):
+        hists.append(("sync-bad-delta-%d" % j, gen_sync_history(rnd, False, bad=True), None, 60))
+        hists.append(("sync-bad-reset-%d" % j, gen_sync_history(rnd, True, bad=True), None, 60))
     hists.append(("sync-big-delta", gen_sync_history(rnd, False, big=True), None, 16))
     hists.append(("sync-big-reset", gen_sync_history(rnd, True, big=True), None, 16))
     order = list(range(len(hists)))
